@@ -256,6 +256,8 @@ def check_property(pid, tier, seed):
         "violations": len(violations),
     }
     evdir = os.environ.get("VERIF_EVIDENCE_DIR", os.path.join(VERIF, "evidence"))
+    if os.environ.get("VERIF_ENGINES") and "VERIF_EVIDENCE_DIR" not in os.environ:
+        evdir = "/var/tmp/verif-partial-evidence"    # partial (development) runs never overwrite the registered evidence
     os.makedirs(evdir, exist_ok=True)
     with open(os.path.join(evdir, f"{pid}.json"), "w") as fh:
         json.dump(ev, fh, indent=1)
